@@ -134,7 +134,8 @@ func Explore(sh *Shared, pkg *ssa.Package, fnName string, cfg Config) *Report {
 	active := 0
 	started := 0
 	stop := false
-	seenViol := map[string]bool{}
+	seenViolN := map[string]int{}
+	seenViolSig := map[string]bool{}
 
 	worker := func(wid int) {
 		sv := newSolver()
@@ -195,8 +196,12 @@ func Explore(sh *Shared, pkg *ssa.Package, fnName string, cfg Config) *Report {
 				rep.Covers[c]++
 			}
 			for _, v := range ps.viols {
-				if !seenViol[v.Label] {
-					seenViol[v.Label] = true
+				// keep a few distinct candidates per label: a schedule- or order-dependent candidate may not
+				// reproduce natively while another input class with the same label does
+				sig := v.Label + "|" + fmt.Sprint(v.Inputs)
+				if seenViolN[v.Label] < 40 && !seenViolSig[sig] {
+					seenViolSig[sig] = true
+					seenViolN[v.Label]++
 					rep.Violations = append(rep.Violations, v)
 				}
 			}
